@@ -556,6 +556,9 @@ func (ex *Exec) havocAssign(st *State, al assignLoc) {
 		}
 		// keys never touched so far must not resolve to their entry-state constants afterwards
 		st.havockedPrefixes = append(st.havockedPrefixes, prefix)
+		if ex.discover != nil {
+			ex.discover.addPrefix(prefix)
+		}
 		return
 	}
 	// whole backing array or whole map: every leaf key under the element type gets a fresh inner array at ref
